@@ -505,10 +505,48 @@ fn case_close_with_queued_task(out: &mut CaseOut, rng: &mut Rng) {
     out.sample = Some(json!({"family": "close-with-queued-task", "ctx": ctx}));
 }
 
+/// Degenerate configurations: a memtable budget of a few bytes (smaller than what an empty memtable
+/// reports as its own footprint), files and blocks of a few bytes. Every call still has to return.
+fn case_degenerate_config(out: &mut CaseOut, rng: &mut Rng, idx: u64) {
+    let d = director();
+    d.reset(rng.next_u64());
+    let memtable = [0usize, 1, 64, 100, 110, 120, 200][(idx / 12 % 7) as usize];
+    let cfg = gen::Config { memtable, file: *rng.pick(&[1u64, 64, 512]), block: *rng.pick(&[1usize, 16, 256]), reuse: rng.chance(0.5) };
+    let fs = SimFs::from_image(&dbutil::root_image());
+    let mut sess = Session::new(fs, cfg);
+    watch::set_call_limit(Duration::from_secs(12));
+    if let Err(e) = sess.open() {
+        out.violate("C09/open-failed", json!({"error": e, "config": cfg.describe()}));
+        watch::set_call_limit(Duration::from_secs(60));
+        return;
+    }
+    let pool = gen::key_pool(rng, KeyFamily::Ascii, 12);
+    for i in 0..30u64 {
+        let k = rng.pick(&pool).clone();
+        if i % 7 == 6 {
+            let _ = sess.delete(&k);
+        } else {
+            let _ = sess.put(&k, format!("v{i}").as_bytes());
+        }
+        if i % 10 == 9 {
+            let _ = sess.get(&k);
+        }
+    }
+    sess.compact(None, None);
+    let _ = sess.scan(None);
+    liveness_probe(out, sess.db(), memtable.max(64), "C09");
+    judge_bg_panics(out, "C09");
+    sess.close();
+    watch::set_call_limit(Duration::from_secs(60));
+    out.nontrivial(format!("degenerate-config/mem{memtable}/file{}/block{}", cfg.file, cfg.block));
+    out.sample = Some(json!({"family": "degenerate-config", "config": cfg.describe()}));
+}
+
 pub fn run_case(tier: &str, seed: u64, idx: u64) -> CaseOut {
     let mut out = CaseOut::new();
     let mut rng = Rng::new(mix(&[seed, idx], "c09"));
     match idx % 6 {
+        2 if idx % 12 == 8 => case_degenerate_config(&mut out, &mut rng, idx),
         0 if idx % 12 == 6 => case_flush_into_gap(&mut out, &mut rng),
         1 if idx % 12 == 7 => case_close_with_queued_task(&mut out, &mut rng),
         0 => case_descriptors(&mut out, &mut rng),
